@@ -856,6 +856,288 @@ def check_lookup_and_dates(ctx, model, falcon, quick):
                     ctx.advisory.append({'date': bad, 'falcon': repr(a[1]), 'email.utils': repr(ref)})
 
 
+# --------------------------------------------------------------------------- HTTP dates
+
+IMF = '%a, %d %b %Y %H:%M:%S GMT'
+DATE_ACCESSORS = [('date', 'Date'), ('if_modified_since', 'If-Modified-Since'),
+                  ('if_unmodified_since', 'If-Unmodified-Since')]
+
+
+def dt_fields(d):
+    return [d.year, d.month, d.day, d.hour, d.minute, d.second]
+
+
+def m_date(v):
+    """wire option date -> tuple | None"""
+    return tuple(v[0]) if v else None
+
+
+def impl_parse(falcon, text, obs):
+    try:
+        d = falcon.http_date_to_dt(text, obs_date=obs)
+    except ValueError:
+        return None
+    except Exception as e:  # noqa: BLE001
+        return ('exc', type(e).__name__)
+    if d.tzinfo is None or d.utcoffset() != dtm.timedelta(0) or d.microsecond:
+        return ('not-utc', repr(d))
+    return tuple(dt_fields(d))
+
+
+def date_texts(ctx, quick):
+    """texts for strptime: valid ones in all accepted shapes, and every kind of near miss"""
+    rng = ctx.rng
+    out = []
+    base = 'Tue, 15 Nov 1994 12:45:26 GMT'
+    # every numeric field on its own: all strings of 1..3 characters over digits and blank
+    alpha = '0123456789 '
+    fld = [''.join(t) for n in (1, 2, 3) for t in itertools.product(alpha, repeat=n)]
+    two = [''.join(t) for n in (1, 2) for t in itertools.product('0123456789', repeat=n)] + ['100', '007', ' 5', '5 ', '٣']
+    for f in fld:
+        out.append('Tue, %s Nov 1994 12:45:26 GMT' % f)
+    for f in two:
+        out += ['Tue, 15 Nov 1994 %s:45:26 GMT' % f, 'Tue, 15 Nov 1994 12:%s:26 GMT' % f,
+                'Tue, 15 Nov 1994 12:45:%s GMT' % f]
+    for y in ['0000', '0001', '0999', '1000', '9999', '199', '19945', ' 199', '1 99', '19 4', '+199', '1_94', '１９９４']:
+        out.append('Tue, 15 Nov %s 12:45:26 GMT' % y)
+    # names: every casing, near misses, full names
+    days = ['Mon', 'Tue', 'Wed', 'Thu', 'Fri', 'Sat', 'Sun']
+    months = ['Jan', 'Feb', 'Mar', 'Apr', 'May', 'Jun', 'Jul', 'Aug', 'Sep', 'Oct', 'Nov', 'Dec']
+
+    def casings(w):
+        for bits in itertools.product((0, 1), repeat=len(w)):
+            yield ''.join(c.upper() if b else c.lower() for c, b in zip(w, bits))
+    for d in days:
+        for c in casings(d):
+            out.append('%s, 15 Nov 1994 12:45:26 GMT' % c)
+    for m_ in months:
+        for c in casings(m_):
+            out.append('Tue, 15 %s 1994 12:45:26 GMT' % c)
+    for w in ['Tues', 'Tu', 'Tuesday', 'Xyz', '', 'Mon,', 'Sunday', 'Thurs', 'T\xfce']:
+        out.append('%s, 15 Nov 1994 12:45:26 GMT' % w)
+    for w in ['November', 'No', 'Nov.', 'Nvo', '11', 'M\xe4r', 'Sept']:
+        out.append('Tue, 15 %s 1994 12:45:26 GMT' % w)
+    for g in casings('GMT'):
+        out.append('Tue, 15 Nov 1994 12:45:26 ' + g)
+    for g in ['UTC', 'utc', 'Z', '+0000', 'EST', 'GM', 'GMTT', 'GMT ', 'GMT\n', '']:
+        out.append('Tue, 15 Nov 1994 12:45:26 ' + g)
+    # separators
+    seps = ['', ' ', '  ', '\t', '\xa0', '\x85', '\x1f', '\n', ' \t ', '-', ',']
+    parts = ['Tue,', '15', 'Nov', '1994', '12:45:26', 'GMT']
+    for i in range(5):
+        for sp_ in seps:
+            out.append(' '.join(parts[:i + 1]) + sp_ + ' '.join(parts[i + 1:]))
+    for pre in [' ', '\t', 'x']:
+        out += [pre + base, base + pre]
+    for c in [':', '.', ' ', '']:
+        out += ['Tue, 15 Nov 1994 12%s45%s26 GMT' % (c, c), 'Tue%s 15 Nov 1994 12:45:26 GMT' % c]
+    # the calendar: month lengths and leap years
+    for y in (1, 4, 100, 400, 1900, 2000, 2023, 2024, 2100, 9999):
+        for mi_, m_ in enumerate(months):
+            for d in (1, 28, 29, 30, 31, 32):
+                out.append('Tue, %02d %s %04d 00:00:00 GMT' % (d, m_, y))
+    # obsolete forms (obs_date=True) and near misses
+    out += ['Sunday, 06-Nov-94 08:49:37 GMT', 'Sun Nov  6 08:49:37 1994', 'Sun Nov 6 08:49:37 1994', 'Sun, 06-Nov-1994 08:49:37 GMT',
+            'Sun, 06 Nov 1994 08:49:37 UTC', 'sunday, 6-nov-94 8:49:37 gmt', 'Sunday, 06-Nov-68 08:49:37 GMT',
+            'Sunday, 06-Nov-69 08:49:37 GMT', 'Sunday, 06-Nov-00 08:49:37 GMT', 'Sunday, 06-Nov-1994 08:49:37 GMT',
+            'Sun, 06-Nov-94 08:49:37 GMT', 'Sun Nov 06 08:49:37 1994 GMT', 'Sun Nov  6 08:49:37 94', 'Sunday, 06-Nov-94 08:49:37 EST',
+            'Sunday, 06-Nov-94 08:49:37', 'Wednesday, 29-Feb-23 00:00:00 GMT', 'Thursday, 29-Feb-24 00:00:00 UTC',
+            'Sun Feb 29 08:49:37 1900', 'Sun Feb 29 08:49:37 2000', 'SUN NOV\t6 08:49:37 1994']
+    # valid IMF-fixdates of many days, and mutations of them
+    for _ in range(300 if quick else 3000):
+        d = rand_dt(rng)
+        t = '%s, %02d %s %04d %02d:%02d:%02d GMT' % (days[d.weekday()], d.day, months[d.month - 1], d.year, d.hour,
+                                                     d.minute, d.second)
+        out.append(t)
+        out.append(mutate(rng, t))
+        if rng.random() < 0.3:      # a wrong day name is ignored by the reader
+            out.append(rng.choice(days) + t[3:])
+    return out
+
+
+def rand_dt(rng):
+    r = rng.random()
+    if r < 0.25:
+        y = rng.choice([1, 2, 4, 99, 100, 400, 999, 1000, 1582, 1899, 1900, 1970, 1999, 2000, 2038, 2100, 9998, 9999])
+    else:
+        y = rng.randint(1, 9999)
+    m = rng.randint(1, 12)
+    last = (dtm.date(y + (m == 12), m % 12 + 1, 1) - dtm.timedelta(days=1)).day if y < 9999 or m < 12 else 31
+    d = rng.choice([1, last, rng.randint(1, last)])
+    return dtm.datetime(y, m, d, rng.choice([0, 23, rng.randint(0, 23)]), rng.choice([0, 59, rng.randint(0, 59)]),
+                        rng.choice([0, 59, rng.randint(0, 59)]))
+
+
+def check_dates(ctx, model, falcon, quick):
+    rng = ctx.rng
+    utc = dtm.timezone.utc
+    padded = dtm.datetime(1, 1, 1).strftime('%Y') == '0001'
+    ctx.assumptions.append('strftime/strptime are modelled for the C locale names emitted into ConstsC09 '
+                           '(platform %%Y padding: %s); datetimes at second resolution' % padded)
+    # ---- (a) strftime and weekday against CPython: every day of the boundary years
+    days = []
+    for y in (1, 4, 100, 400, 999, 1000, 1900, 2000, 2024, 2100, 9999) if quick else \
+            (1, 2, 4, 99, 100, 400, 999, 1000, 1582, 1600, 1899, 1900, 1970, 1999, 2000, 2023, 2024, 2038, 2100, 2400, 9998, 9999):
+        d = dtm.date(y, 1, 1)
+        while d.year == y:
+            days.append(dtm.datetime(d.year, d.month, d.day, rng.choice([0, 9, 10, 23]), rng.choice([0, 5, 59]), rng.choice([0, 7, 59])))
+            if d == dtm.date.max:
+                break
+            d += dtm.timedelta(days=1)
+    outs = model.run_many([[40, padded, dt_fields(d)] for d in days])
+    wds = model.run_many([[43, dt_fields(d)] for d in days])
+    for d, o, w in zip(days, outs, wds):
+        ctx.count('strftime')
+        ctx.note_case(('strftime', d.isoformat()), True)
+        if common.wstr(o) != d.strftime(IMF) or w != d.weekday():
+            ctx.violation('lib-correspondence', {'broken': 'C09.DateModel.strftime_http/weekday', 'date': d.isoformat(),
+                                                 'cpython': d.strftime(IMF), 'model': common.wstr(o), 'weekday': [w, d.weekday()]},
+                          found_input=False, key='date-strftime')
+            break
+    # ---- (b) the reader on every kind of text: model, RFC reading, never another exception
+    texts = date_texts(ctx, quick)
+    latin = [t for t in texts if all(ord(c) < 256 for c in t)]
+    cases = []
+    for t in latin:
+        cases += [[41, t, False], [41, t, True], [45, t]]
+    outs = model.run_many(cases)
+    corr = None
+    for i, t in enumerate(latin):
+        for k, obs in ((0, False), (1, True)):
+            a = impl_parse(falcon, t, obs)
+            mo_ = m_date(outs[3 * i + k])
+            ctx.count('http_date_to_dt')
+            ctx.note_case(('strptime', t, obs), a is not None)
+            if isinstance(a, tuple) and a and a[0] in ('exc', 'not-utc'):
+                ctx.violation('accessor-raised-non-http-exception',
+                              {'what': 'http_date_to_dt: %r' % (a,), 'accessor': 'http_date_to_dt', 'value': t, 'obs_date': obs},
+                              key='date-exc')
+            elif a != mo_ and corr is None:
+                corr = {'what': 'http_date_to_dt differs from the strptime model', 'value': t, 'obs_date': obs,
+                        'impl': repr(a), 'model': repr(mo_)}
+        rfc = m_date(outs[3 * i + 2])
+        if rfc is not None:
+            ctx.count('imf-fixdate-valid')
+            for stack, mk in (('wsgi', mk_wsgi), ('asgi', mk_asgi)):
+                acc, hname = rng.choice(DATE_ACCESSORS)
+                req = mk(falcon, [(rand_case(rng, hname), t)])
+                a, b = twice(falcon, req, acc)
+                exp = dtm.datetime(*rfc, tzinfo=utc)
+                if a[0] == 2:
+                    crash_violation(ctx, acc, stack, hname, t, a)
+                elif a != (0, exp) or a[1].utcoffset() != dtm.timedelta(0):
+                    rfc_violation(ctx, acc, stack, hname, t, a, exp)
+                elif a != b:
+                    unstable_violation(ctx, acc, stack, hname, t, a, b)
+    # invalid text -> 400-class only, on the accessors themselves
+    for t in rng.sample(latin, min(len(latin), 1500 if quick else 8000)):
+        for stack, mk in (('wsgi', mk_wsgi), ('asgi', mk_asgi)):
+            acc, hname = rng.choice(DATE_ACCESSORS)
+            if not t or (stack == 'asgi' and t != t.strip()):
+                pass
+            req = mk(falcon, [(hname, t)])
+            a = read(falcon, req, acc)
+            g = read(falcon, req, 'get_header_as_datetime', lambda f: f)
+            try:
+                g = (0, req.get_header_as_datetime(hname, obs_date=True))
+            except falcon.HTTPError as e:
+                g = (1, int(str(e.status)[:3]))
+            except Exception as e:  # noqa: BLE001
+                g = (2, type(e).__name__)
+            ctx.count('date-accessor')
+            ctx.note_case(('date-acc', stack, acc, t), a[0] == 0 and a[1] is not None)
+            want = impl_parse(falcon, t, False) if t else None
+            wantg = impl_parse(falcon, t, True) if t else None
+            for nm, o, w in ((acc, a, want), ('get_header_as_datetime(obs_date=True)', g, wantg)):
+                if o[0] == 2:
+                    crash_violation(ctx, nm, stack, hname, t, o)
+                elif t and (o[0] == 0) != (w is not None) or (o[0] == 0 and w is not None and o[1] is not None
+                                                             and tuple(dt_fields(o[1])) != w):
+                    if corr is None:
+                        corr = {'what': 'req.%s differs from http_date_to_dt + 400 mapping' % nm, 'stack': stack,
+                                'value': t, 'impl': repr(o), 'expected': repr(w)}
+    if corr:
+        ctx.violation('correspondence-broken', dict(corr, broken='C09.date_corr'),
+                      found_input=any(v['found_input'] for v in ctx.violations), key='corr-date')
+    # ---- (c) response setter -> header text -> request accessor, for naive and aware datetimes
+    dts = []
+    for _ in range(600 if quick else 6000):
+        d = rand_dt(rng)
+        r = rng.random()
+        if r < 0.35:
+            dts.append(d)
+        elif r < 0.55:
+            dts.append(d.replace(tzinfo=utc))
+        else:
+            off = rng.choice([3600, -3600, 19800, -34200, 50400, -43200, 1, -1, 86399, -86399, 7200, rng.randint(-86399, 86399)])
+            dts.append(d.replace(tzinfo=dtm.timezone(dtm.timedelta(seconds=off))))
+    dts += [dtm.datetime(2020, 1, 1, 12, 0, 0, tzinfo=dtm.timezone(dtm.timedelta(hours=2))), dtm.datetime(999, 12, 31, 23, 59, 59),
+            dtm.datetime(1, 1, 1, 0, 0, 0, tzinfo=dtm.timezone(dtm.timedelta(hours=2))),
+            dtm.datetime(9999, 12, 31, 23, 59, 59, tzinfo=dtm.timezone(dtm.timedelta(hours=-2))),
+            dtm.datetime(999, 12, 31, 23, 0, 0, tzinfo=dtm.timezone(dtm.timedelta(hours=-1))),
+            dtm.datetime(2024, 2, 29, 23, 59, 59, 999999), dtm.datetime(2000, 1, 1, 0, 0, 0, 1, tzinfo=utc)]
+    mcases = []
+    for d in dts:
+        off = [] if d.tzinfo is None else [int(d.utcoffset().total_seconds())]
+        mcases += [[42, True, dt_fields(d), off], [44, dt_fields(d), off]]
+    mouts = model.run_many(mcases)
+    corr = None
+    written = []
+    for i, d in enumerate(dts):
+        mtext, mutc = mouts[2 * i], m_date(mouts[2 * i + 1])
+        attr = rng.choice(['last_modified', 'expires'])
+        hname = {'last_modified': 'Last-Modified', 'expires': 'Expires'}[attr]
+        resp = falcon.Response()
+        ctx.count('date-setter')
+        ctx.note_case(('setter', repr(d), attr), True)
+        try:
+            setattr(resp, attr, d)
+            text = resp.get_header(hname)
+        except OverflowError:
+            text = None
+        except Exception as e:  # noqa: BLE001
+            ctx.violation('accessor-raised-non-http-exception',
+                          {'what': 'resp.%s = %r raised %s' % (attr, d, type(e).__name__), 'accessor': attr}, key='setter-exc')
+            continue
+        mt = common.wstr(mtext[1]) if mtext[0] == 0 else None
+        if text != mt and corr is None:
+            corr = {'what': 'resp.%s setter differs from the dt_to_http model' % attr, 'datetime': repr(d), 'impl': text, 'model': mt}
+        if text is None:
+            continue
+        # the value written must read back: same instant, at second resolution (binding)
+        try:
+            want = (d if d.tzinfo is not None else d.replace(tzinfo=utc)).astimezone(utc).replace(microsecond=0)
+        except OverflowError:
+            continue        # the instant is outside datetime's range: nothing to read back
+        shape = ('aware-non-utc' if d.tzinfo is not None and d.utcoffset() else
+                 'year-below-1000' if want.year < 1000 else 'other')
+        if mutc is not None and tuple(dt_fields(want)) != mutc and corr is None:
+            corr = {'what': 'to_utc model differs from datetime.astimezone', 'datetime': repr(d), 'model': mutc}
+        written.append((d, attr, text, want))
+        for stack, mk in (('wsgi', mk_wsgi), ('asgi', mk_asgi)):
+            acc, rname = rng.choice(DATE_ACCESSORS)
+            req = mk(falcon, [(rand_case(rng, rname), text)])
+            a, b = twice(falcon, req, acc)
+            if a[0] == 2:
+                crash_violation(ctx, acc, stack, rname, text, a)
+            elif a != (0, want) or a != b:
+                ctx.violation('response-date-does-not-read-back',
+                              {'what': 'resp.%s = dt; req.%s of the header text is not dt' % (attr, acc), 'stack': stack,
+                               'accessor': acc, 'setter': attr, 'written': repr(d), 'header_text': text,
+                               'read': repr(a), 'expected': repr(want), 'shape': shape}, key='date-rt2-%s-%s' % (shape, stack))
+    # what the setters wrote must be a strict RFC 9110 IMF-fixdate of that instant (proved for the model:
+    # C09_date_written_is_imf_fixdate)
+    for (d, attr, text, want), o in zip(written, model.run_many([[45, w[2]] for w in written])):
+        if m_date(o) != tuple(dt_fields(want)):
+            ctx.violation('response-date-not-imf-fixdate',
+                          {'what': 'resp.%s = dt wrote a header that is not the IMF-fixdate of dt' % attr, 'setter': attr,
+                           'written': repr(d), 'header_text': text, 'rfc_reading': repr(m_date(o)),
+                           'expected': repr(want)}, key='date-not-imf')
+    if corr:
+        ctx.violation('correspondence-broken', dict(corr, broken='C09.date_setter_corr'),
+                      found_input=any(v['found_input'] for v in ctx.violations), key='corr-date-setter')
+
+
 # --------------------------------------------------------------------------- main
 
 def main(ctx):
@@ -886,6 +1168,7 @@ def main(ctx):
     check_forwarded(ctx, model, falcon, quick)
     check_urls(ctx, model, falcon, quick)
     check_lookup_and_dates(ctx, model, falcon, quick)
+    check_dates(ctx, model, falcon, quick)
     seen = set()
     for key, detail in disagreements:
         if key in seen:
